@@ -430,3 +430,11 @@ func TestVerifC01ToyNonrev(t *testing.T) {
 func TestVerifC01K1024Nonrev(t *testing.T) {
 	c01Run(t, "k1024-nonrev", "k1024a", vkit.Pick(1, 2), true, 0, true, 240*time.Second, 1200*time.Second)
 }
+
+// TestVerifC01DegenerateA: forged proofs whose A is not a unit modulo n (see vfDegenerateAForgeries).
+func TestVerifC01DegenerateA(t *testing.T) {
+	r := vkit.Start(t, "C01", "degenerate-signature-element", 120*time.Second, 300*time.Second)
+	defer r.Finish()
+	r.Rule = "keys {toyA, k1024a} x A in {0, n, 2n, n(n+1)} x {single proof, second member of a list with the secret-key response of the honest first member}; challenge computed from what the verifier reconstructs; non-trivial = distinct forgery; oracle: never accepted"
+	vfDegenerateAForgeries(r, "C01", []string{"toyA", "k1024a"})
+}
